@@ -256,8 +256,10 @@ Proof.
     + unfold d3; cbn [dslices]. rewrite concat_snoc, S1, <- app_assoc, !nlen_app. cbn [map concat fst] in *. lia.
     + unfold d3; cbn [dslices]. rewrite concat_snoc, S1, <- app_assoc. exact HV.
     + fold Prest in Hrun'. rewrite Hrun'. exists d'. split; [|exact Hcl]. f_equal.
-      unfold d3; cbn [dslices]. rewrite concat_snoc, S1, <- app_assoc.
-      rewrite app_assoc. rewrite (repeat_snoc DMore); [|destruct (batch_payloads max (b, h)); [contradiction|cbn; lia]].
+      assert (EF : concat (dslices d3) ++ concat (fst bh2) ++ concat (map (fun bh => concat (fst bh)) rest2) =
+                   concat (dslices d) ++ concat b ++ concat (fst bh2) ++ concat (map (fun bh => concat (fst bh)) rest2)).
+      { unfold d3; cbn [dslices]. rewrite concat_snoc, S1, <- app_assoc. reflexivity. }
+      rewrite EF. rewrite (repeat_snoc DMore); [|destruct (batch_payloads max (b, h)); [contradiction|cbn; lia]].
       rewrite app_assoc, <- repeat_app. do 2 f_equal. rewrite app_length.
       assert (1 <= length Prest)%nat by (destruct Prest; [contradiction|cbn; lia]). lia.
 Qed.
